@@ -172,6 +172,11 @@ func (s *WriterOffline) Close() error {
 		return fmt.Errorf("error while merging: %w", err)
 	}
 
+	// no batch was ever written, there is nothing to record
+	if len(s.segIDs) == 0 {
+		return nil
+	}
+
 	// open the merged segment
 	data, closer, err := s.directory.Load(ItemKindSegment, s.segIDs[0])
 	if err != nil {
